@@ -106,13 +106,13 @@ contract(
     props=["C04", "C02"], max_paths=20000,
     note="number of fragments bounded by 4 (requires len(value) <= 4 * (conn - 99)); all sizes within that bound")
 
-for _nfrag in (1, 2, 3):
+for _nfrag, _first_min, _sfx, _tier in ((1, 0, "", "quick"), (2, 0, "", "quick"), (3, 1, "", "quick"), (3, 0, ".empty_first", "thorough")):
     _chunks = [f"c{i}" for i in range(_nfrag)]
     _replies = ", ".join(f"spec.logix.read_fragment_reply(head, {6 if i < _nfrag - 1 else 0}, b'\\xc4\\x00', c{i})" for i in range(_nfrag))
     contract(
-        id=f"sizes.read.fragmented.{_nfrag}", func=LD + "._send_read_fragmented", call="d.send(req)",
+        id=f"sizes.read.fragmented.{_nfrag}{_sfx}", func=LD + "._send_read_fragmented", call="d.send(req)", tier=_tier,
         params=dict(BASE, **SC, name=P.str(**IDENT), elements=P.int(1, 65535), head=P.bytes(len=46),
-                    **{c: P.bytes(minlen=(1 if c == "c0" else 0), maxlen=4000) for c in _chunks}),      # a later fragment may carry no data at all
+                    **{c: P.bytes(minlen=(_first_min if c == "c0" else 0), maxlen=4000) for c in _chunks}),      # a fragment may carry no data at all
         requires=["spec.encap.le(head, 8, 4) == 0"],
         setup=CONN + [f"tag_info = {_tag_info('DINT')}", "tag_info['type_class'] = type(pycomm3.cip.data_types.n_bytes(-1))",
                       "req = pycomm3.packets.ReadTagFragmentedRequestPacket(5, name, elements, tag_info, 0, use_ids, 0)",
